@@ -164,3 +164,44 @@ func SHA1(parts ...[]byte) (out [20]byte) {
 	copy(out[:], h.Sum(nil))
 	return
 }
+
+// ---- BEP 44 ----
+
+// Bep44SignBuf is the byte string a mutable item's signature covers: optional "4:salt<len>:<salt>",
+// then "3:seqi<seq>e1:v" followed by the bencoded value.
+func Bep44SignBuf(salt []byte, seq int64, encodedV []byte) []byte {
+	var b []byte
+	if len(salt) > 0 {
+		b = append(b, "4:salt"...)
+		b = append(b, []byte(itoa(int64(len(salt))))...)
+		b = append(b, ':')
+		b = append(b, salt...)
+	}
+	b = append(b, "3:seqi"...)
+	b = append(b, []byte(itoa(seq))...)
+	b = append(b, "e1:v"...)
+	b = append(b, encodedV...)
+	return b
+}
+
+func itoa(n int64) string {
+	if n == 0 {
+		return "0"
+	}
+	neg := n < 0
+	var u uint64
+	if neg {
+		u = uint64(-(n + 1)) + 1
+	} else {
+		u = uint64(n)
+	}
+	var d []byte
+	for u > 0 {
+		d = append([]byte{byte('0' + u%10)}, d...)
+		u /= 10
+	}
+	if neg {
+		d = append([]byte{'-'}, d...)
+	}
+	return string(d)
+}
